@@ -27,6 +27,8 @@ TECHNIQUE = 'static analysis: abstract interpretation of the Vector class over c
 def vec(prefix, unit, n=3):
     return VectorV({c: ArrayV(S(c + prefix), unit) for c in "xyz"[:n]})
 
+from . import vecq_folds as vq
+
 
 def r1_forwarding(run, tree):
     run.rule("C09.R1", "every Vector operator applies the same-named Array operator to every component pair (folded over 1-3 "
@@ -51,90 +53,19 @@ def _run_method(tree, qual, args, zero=None):
 
 
 def r3_cross(run, tree):
-    run.rule("C09.R3", "cross product = determinant formula, as physical quantities", "D1 x D6 symbolic execution", "", floor=3)
-    for label, ub in (("same-unit", U1), ("compatible-different-units", U2), ("different-dimensions", U3)):
-        a, b = vec("1", U1), vec("2", ub)
-        construct = "%s.cross[%s]" % (VECTOR, label)
-        try:
-            fi, ev, out = _run_method(tree, VECTOR + ".cross", [a, b])
-        except (Unsupported, DimError) as e:
-            run.unresolved(construct, "core/vector.py", "cannot execute cross symbolically: %s" % e)
-            continue
-        run.analysed(fi)
-        if not isinstance(out, VectorV) or len(out.comps) != 3:
-            run.violated(construct, fi.where(), "cross returns %r" % (out,), "a x b")
-            continue
-        x1, y1, z1, x2, y2, z2 = (R(S(n)) for n in ("x1", "y1", "z1", "x2", "y2", "z2"))
-        k = ub.scale
-        want = {"x": (y1 * z2 - z1 * y2) * k, "y": (z1 * x2 - x1 * z2) * k, "z": (x1 * y2 - y1 * x2) * k}
-        wdim = (U1 * ub).dim
-        bad = []
-        for c in "xyz":
-            got = out.comps[c]
-            if not (got.phys() == want[c]):
-                bad.append("%s = %r, required %r" % (c, got.phys(), want[c]))
-            if got.unit.dim != wdim:
-                bad.append("%s has dimension %r, required %r" % (c, got.unit.dim, wdim))
-        run.ob(construct, not bad, fi.where(), "; ".join(bad) or "components equal the determinant with unit product",
-               "a x b for a in m and b in %s: antisymmetry / a.(a x b)=0 fail" % (
-                   "m" if label == "same-unit" else "cm" if label.startswith("compat") else "1/s"))
+    run.rule("C09.R3", "cross product = determinant formula, as physical quantities", "D7 fold of Vector.cross over quantities (symbolic values x unit scale x dimension)", "", floor=3)
+    vq.check_cross(run, tree)
 
 
 def r4_norm(run, tree):
-    run.rule("C09.R4", "norm = sqrt(sum of squared components) in the component unit", "D1 symbolic execution", "", floor=3)
-    for n in (1, 2, 3):
-        a = vec("1", U2, n)
-        construct = "%s.norm[nvec=%d]" % (VECTOR, n)
-        try:
-            fi, ev, out = _run_method(tree, VECTOR + ".norm", [a])
-        except (Unsupported, DimError) as e:
-            run.unresolved(construct, "core/vector.py", "cannot execute norm symbolically: %s" % e)
-            continue
-        run.analysed(fi)
-        comps = [R(S(c + "1")) for c in "xyz"[:n]]
-        if n == 1:
-            ok = isinstance(out, ArrayV) and out.fn is None and out.vals == comps[0] and out.unit.same(U2)
-            if not ok and isinstance(out, ArrayV) and out.fn is not None:
-                ok = out.fn == Fn("sqrt", comps[0] * comps[0]) and out.unit.same(U2)
-            run.ob(construct, ok, fi.where(), "norm of a 1-component vector = %r" % (out,), "|v| for a 1-D vector")
-            continue
-        tot = R(0)
-        for c in comps:
-            tot = tot + c * c
-        ok = isinstance(out, ArrayV) and out.fn == Fn("sqrt", tot) and out.unit.same(U2)
-        run.ob(construct, ok, fi.where(), "norm = %r (required sqrt(%r) in the unit of the components)" % (out, tot),
-               "|v| misses a component or carries the wrong unit")
+    run.rule("C09.R4", "norm = sqrt(sum of squared components) in the component unit", "D7 fold of Vector.norm over quantities", "", floor=3)
+    vq.check_norm(run, tree)
 
 
 def r5_dot(run, tree):
-    run.rule("C09.R5", "dot product = sum of component products as physical quantities; unit provenance", "D1 x D6", "",
+    run.rule("C09.R5", "dot product = sum of component products as physical quantities; unit provenance", "D7 fold of Vector.dot over quantities", "",
              floor=5)
-    for label, ub, n in (("same-unit", U1, 3), ("compatible-different-units", U2, 3), ("different-dimensions", U3, 3),
-                         ("compatible-different-units,nvec=2", U2, 2), ("compatible-different-units,nvec=1", U2, 1)):
-        a, b = vec("1", U1, n), vec("2", ub, n)
-        construct = "%s.dot[%s]" % (VECTOR, label)
-        try:
-            fi, ev, out = _run_method(tree, VECTOR + ".dot", [a, b])
-        except (Unsupported, DimError) as e:
-            run.unresolved(construct, "core/vector.py", "cannot execute dot symbolically: %s" % e)
-            continue
-        run.analysed(fi)
-        want = R(0)
-        for c in "xyz"[:n]:
-            want = want + R(S(c + "1")) * R(S(c + "2"))
-        want = want * ub.scale
-        wdim = (U1 * ub).dim
-        if not isinstance(out, ArrayV) or out.fn is not None:
-            run.violated(construct, fi.where(), "dot returns %r" % (out,), "a . b")
-            continue
-        bad = []
-        if not (out.phys() == want):
-            bad.append("physical value %r, required %r (values %r labelled with scale %r)" % (
-                out.phys(), want, out.vals, out.unit.scale))
-        if out.unit.dim != wdim:
-            bad.append("dimension %r, required %r" % (out.unit.dim, wdim))
-        run.ob(construct, not bad, fi.where(), "; ".join(bad) or "sum of products with the unit of the products",
-               "(1,2,3) m . (100,200,300) cm: numbers computed in one unit and labelled with another")
+    vq.check_dot(run, tree)
 
 
 def r6_construction(run, tree):
